@@ -6,6 +6,7 @@ import Nstd.Future.Safety
 import Nstd.Future.SafetyFault
 import Nstd.Future.LiveWorker
 import Nstd.Future.Progress
+import Nstd.Future.LiveProducer
 import Nstd.Future.Handshake
 import Nstd.Future.HandshakeWitness
 /-
@@ -138,6 +139,13 @@ example : hsCfg.WellFormed := by
 theorem no_stuck_worker_side {cfg : Config} {s : State} (hrep : cfg.repaired = true) (h : Reach cfg s)
     (hq : jobQueued s) (hw : ∃ w, liveWorker s w) : ∃ t, enabled s t = true :=
   Nstd.Future.no_stuck_worker_side hrep h hq hw
+
+/-- No lost wake-up on the producer side (back-pressure loop of `ThreadPool::run` and of `~ThreadPool`): whenever a thread
+    sleeps in `_dequeuedSignal.wait()` and a worker thread is alive, some thread can take a step (whether the queue has
+    a free slot or is still full). -/
+theorem no_stuck_producer_side {cfg : Config} {s : State} {p : Pool} (hrep : cfg.repaired = true) (h : Reach cfg s)
+    (hp : s.pool = some p) (hsl : ∃ t, asleepOnDeq s t) (hw : ∃ w, liveWorker s w) : ∃ t, enabled s t = true :=
+  no_stuck_sleeper_on_deq hrep h hp hsl hw
 
 /-- Mutual exclusion and progress of the simulated Signal layer inside the full model (both code variants): the two
     pool signals' mutexes are exclusive; a thread blocked on any Signal mutex has an owner that can step; a thread
